@@ -61,7 +61,9 @@ def external_raises(call: ast.Call) -> set | None:
     full = dotted(call.func) or ""
     recv = U(call.func.value) if isinstance(call.func, ast.Attribute) else ""
     if name == "ZipFile":
-        return {"BadZipFile"}
+        # reading the central directory: bad signatures/sizes (BadZipFile), "zip file version N" (NotImplementedError),
+        # undecodable member names (UnicodeDecodeError)
+        return {"BadZipFile", "NotImplementedError", "UnicodeDecodeError"}
     if name == "read" and "zip" in recv.lower():
         return set(ZIP_READ)
     if name == "getinfo" and "zip" in recv.lower():
@@ -69,7 +71,8 @@ def external_raises(call: ast.Call) -> set | None:
     if name in ("namelist", "writestr", "close") and "zip" in recv.lower():
         return set()
     if full in ("plistlib.loads", "plistlib.load"):
-        return {"InvalidFileException", "ExpatError"}
+        # XML plists: malformed <integer>/<real>/<date>/<data> payloads raise ValueError
+        return {"InvalidFileException", "ExpatError", "ValueError"}
     if full in ("snappy.uncompress", "snappy.decompress"):
         return {"Exception"}
     if full in ("snappy.compress",):
